@@ -80,6 +80,7 @@ type writer struct {
 	park   chan struct{}
 	picked int
 	g      int
+	at     int // code of the schedule point the index worker is parked at
 }
 
 type reader struct {
@@ -454,6 +455,7 @@ func (e *Exec) stepW(t int) Obs {
 		if !ok || x.done {
 			return Obs{K: "err", Msg: "hang in index worker"}
 		}
+		w.at = hookCode[x.hook]
 		if x.hook == "append.done" {
 			close(x.park)
 			w.state = 0
